@@ -11,4 +11,5 @@ def run(tier, seed, replay):
         COMMON + ["-n", "300", "-blocks", "60"],
         "Dispute.tla (funding part): slash = category share of power*10^6, per-backer apportioning against the recorded stake snapshot (within one smallest unit per snapshot entry), jail 0 s / 600 s / none, flagging of the determined aggregate, at most one escrow per dispute hash, expiry of underfunded disputes after one day without slashing. Histories contain real, altered and invented reports, all three categories, fees paid in full / in parts / by several payers / from stake, and staking changes (redelegation, undelegation, validators unbonding) between report and dispute; every account's stake (delegations + unbonding entries) is projected before/after the funding message and decided by TLC. Open findings F-14 (report not compared with the store) and F-15 (apportioning against power*10^6) are explained by Dev_F14 / Dev_F15.",
         ["a funding message that also pays its fee from the signer's stake is excluded from the per-backer clause (two stake reductions in one message)",
-         "per-backer tolerance: one smallest unit per snapshot entry of that backer"])
+         "per-backer tolerance: one smallest unit per snapshot entry of that backer"],
+        scenarios=("Dispute_Fund_Trace", "dispute,hold,reporter,aggs"))
